@@ -187,9 +187,40 @@ func (p Path) wire() string {
 	return strings.Join(parts, "/")
 }
 
+// hasNestedRoot: some script of the path has a `$` operand inside a filter nested in one of its path operands.
+func (p Path) hasNestedRoot() bool {
+	for i := range p {
+		if p[i].Kind == 'f' && len(p[i].Scr.rootOperands(true, nil)) > len(p[i].Scr.rootOperands(false, nil)) {
+			return true
+		}
+	}
+	return false
+}
+
 // sameTruth: every filter script of the path has the same truth value on every node of the tree held in
-// the representation as on the simple form.
-func (p Path) sameTruth(nodes []*Node, r Rep) bool {
+// the representation as on the simple form (the `$` operands: the same values on the root).
+func (p Path) sameTruth(root *Node, r Rep) bool {
+	nodes := root.all(nil)
+	for i := range p {
+		if p[i].Kind != 'f' {
+			continue
+		}
+		for _, rp := range p[i].Scr.rootOperands(false, nil) {
+			v, ok := root.build(r)
+			if !ok {
+				continue
+			}
+			a, b := goGet(rp.expr(true), v), goGet(rp.expr(true), root.simple())
+			if a.panic != b.panic || !sameBag(a.vals, b.vals) {
+				return false
+			}
+			// comparing CONTAINERS is representation-dependent (`==` of two structs is Go's, of two maps is false)
+			// and the script family's subject; Match below cannot see it for a `$` operand (it has no root to give)
+			if !allLeaves(b.vals) {
+				return false
+			}
+		}
+	}
 	for i := range p {
 		f := &p[i]
 		if f.Kind != 'f' {
